@@ -30,7 +30,7 @@ ASSUMPTIONS = ["well-formed optional fields only; Z values never end in a blank 
 
 
 def plan(tier):
-    return {"cases": 160 if tier == "quick" else 2400, "shards": 16,
+    return {"cases": 640 if tier == "quick" else 2400, "shards": 16,
             "shard_budget_s": 400 if tier == "quick" else 2400}
 
 
@@ -38,7 +38,7 @@ def required(tier):
     return ["post:parse_gaf_line", "cmd:view_format", "cmd:view_node", "cmd:view_node_format", "cmd:view_region",
             "cmd:realign", "records_judged", "class:negative_int", "class:float_special", "class:Z_punct",
             "class:B_array", "class:H", "class:A", "class:repeated_tag", "class:no_cigar", "class:ds",
-            "class:name_with_space"] + (["cmd:realign_passthrough"] if tier == "thorough" else [])
+            "class:name_with_space", "cmd:realign_passthrough", "cmd:realign_passthrough_no_cigar"]
 
 
 def norm_fields(fields):
@@ -223,15 +223,18 @@ def run_case(ctx, rng, index, casedir):
         fields = ggaf.grammar_tags(rng, cg if rng.random() < 0.9 else None, repeats=True)
         rr.line = "\t".join(cols[:12] + fields)
         rrecs.append(rr)
-    if ctx.tier == "thorough" and rng.random() < 0.15:
+    if rng.random() < (0.25 if ctx.tier == "quick" else 0.4):
+        # pass-through record (> 60 000 query bases are re-emitted as parsed), with and without a CIGAR
         big = greads.make_read_record(g, rng, rwalks[0], f"big{index}", tags="none", rate=0.0)
         cols = big.line.split("\t")
         read = rgfa.rand_seq(rng, 60_001 + rng.randint(0, 5))
         cols[1], cols[2], cols[3] = str(len(read)), "0", str(len(read))
         big.read = read
-        big.line = "\t".join(cols[:12] + ggaf.grammar_tags(rng, cols[-1][5:], repeats=False))
+        big.line = "\t".join(cols[:12] + ggaf.grammar_tags(rng, cols[-1][5:] if rng.random() < 0.5 else None, repeats=False))
         rrecs.append(big)
         sit["cmd:realign_passthrough"] += 1
+        if "cg:Z:" not in big.line:
+            sit["cmd:realign_passthrough_no_cigar"] += 1
     for rr in rrecs:
         classes_of(rr.line, sit)
         by_name[rr.name] = rr.line
